@@ -50,6 +50,19 @@ PROPS = {
                 "distinct_nontrivial = distinct op lines with a non-empty MOC.",
         "explanation": "theorems: contains_val / contains_range / intersects_range / intersects / contains / overlapped_by agree with the covered set for all canonical MOCs; correspondence incl. float outputs",
     },
+    "C04": {
+        "trusted_base": COMMON_TB,
+        "assumptions": COMMON_ASSUME + [
+            "a streaming source is modelled by the sequence it yields plus the hints it advertises at creation and after 1 and 2 next(); the hints of the 6 real leaf source kinds are OBSERVED by the harness and handed to the model (theorems quantify over all consistent hints)",
+            "size hints of nested operator nodes are judged by the proved-equivalent predicate hintOkB on the implementation's own (hint, yield) pairs rather than predicted exactly"],
+        "rule": "random operator trees (height 1..4 quick / 1..6 thorough) over and/or/xor/minus/not/degrade, leaves from the whole-domain small scope or "
+                "boundary-biased random MOCs (incl. operands placed just after/before another one and degrade feeding a binary operator), 9 (quantity,width) "
+                "combinations x 6 leaf source kinds: expr_e (eager) and expr_l (lazy) against the same model value; expr_fits = the lazy tree written by the real "
+                "FITS range writer (plain and through CheckedIterator) and read back; hintok = peek_last/size_hint of EVERY subtree at creation and after 1 and 2 "
+                "next() against what it then yields; l_check / l_convert with exact hint prediction. distinct_nontrivial = distinct op lines (hintok lines and "
+                "multi-leaf trees).",
+        "explanation": "theorem lazy_eq_eager by induction over operator trees for every consistent hint configuration; per-operator hint consistency; correspondence incl. serialiser fast path",
+    },
 }
 
 
@@ -57,29 +70,36 @@ def _fields(ans):
     return ans.split("|")
 
 
-def judge(prop, op, impl, model, driver_eval):
-    """Return (bad, why): bad=True iff the implementation's answer violates the property on this input.
-    The model's answer is the proved-unique correct value for the *determined* fields (depth, ranges,
-    Boolean/number answers); advisory fields (hints) are judged by the property predicate itself."""
+def judge_prepare(prop, op, impl, model, collect):
+    """Returns a function answers -> (bad, why). bad=True iff the implementation's answer violates the
+    property on this input.  The model's answer is the proved-unique correct value for the *determined*
+    fields (depth, ranges, Boolean/number answers); advisory fields (hints) are judged by the property
+    predicate itself, evaluated by the Lean driver (`collect` registers judge op lines, evaluated in
+    one batch; the returned closure reads its answers)."""
     name = op.split(" ")[0]
+    const = lambda bad, why: (lambda answers: (bad, why))
     if impl == "panic":
-        return True, "the implementation panicked on an input on which the (proved total) model answers " + model
+        return const(True, "the implementation panicked on an input on which the (proved total) model answers " + model[:200])
     if name == "valid":
-        return True, "the implementation produced a MOC that is not canonical / not inside the domain / not aligned on its declared depth (validB = false)"
+        return const(True, "the implementation produced a MOC that is not canonical / not inside the domain / not aligned on its declared depth (validB = false)")
+    if name == "hintok":
+        return const(True, "peek_last / size_hint advertised by the implementation are inconsistent with the ranges it then yields (hintOkB = false)")
     if name.startswith("l_"):
         fi, fm = _fields(impl), _fields(model)
         if len(fi) != 4 or len(fm) != 4:
-            return True, "malformed answer"
+            return const(True, "malformed answer")
         if fi[0] != fm[0]:
-            return True, f"declared depth {fi[0]} differs from the specified depth {fm[0]}"
+            return const(True, f"declared depth {fi[0]} differs from the specified depth {fm[0]}")
         if fi[1] != fm[1]:
-            return True, "ranges differ from the unique canonical representation of the specified set"
+            return const(True, "ranges differ from the unique canonical representation of the specified set")
         # only hints differ: evaluate the hint-consistency predicate on the implementation's own answer
-        out = driver_eval([f"hintok {fi[1]} {fi[2]} {fi[3]}"])[0]
-        if out == "false":
-            return True, "advertised hints (peek_last / size_hint) are inconsistent with the ranges then yielded"
-        return False, "hints differ from the model's but are consistent with the yielded ranges"
-    return True, "answer differs from the unique value determined by the property (model answer proved correct)"
+        ids = collect([f"hintok {fi[1]} {fi[2]} {fi[3]}"])
+        def fin(answers, ids=ids):
+            if answers[ids[0]] == "false":
+                return True, "advertised hints (peek_last / size_hint) are inconsistent with the ranges then yielded"
+            return False, "hints differ from the model's but are consistent with the yielded ranges"
+        return fin
+    return const(True, "answer differs from the unique value determined by the property (model answer proved correct)")
 
 
 def run_correspondence(prop, tier, seed, workdir, only, default):
